@@ -90,7 +90,12 @@ class SimProc(object):
                 base = base[:-4]
             out = posixpath.join(outdir, base + ".pdf")
             self.target = out
-            fs.child_write(out, pdf_of(tex, datas))
+            content = pdf_of(tex, datas)
+            if self.sub.stamp:
+                # like the real tool: two runs on the same sources do not give the same bytes
+                fs.child_serial = getattr(fs, "child_serial", 0) + 1
+                content += "@%d" % fs.child_serial
+            fs.child_write(out, content)
             return 0
         if self.tool == "pdftoppm":
             args = [a for a in self.args[1:] if not a.startswith("-")]
@@ -155,8 +160,9 @@ class SimSubprocess(object):
     class CalledProcessError(Exception):
         pass
 
-    def __init__(self, fs, log=None, plan=None, fail_plan=None):
+    def __init__(self, fs, log=None, plan=None, fail_plan=None, stamp=False):
         self.fs = fs
+        self.stamp = stamp          # pdflatex output carries a serial number (C19)
         self.log = log
         self.plan = plan            # callable(tool, n) -> finish_after (int or None)
         self.fail_plan = fail_plan  # callable(tool, n) -> bool
